@@ -365,7 +365,12 @@ def judge_wiring(case):
     alg._set_data(np.zeros((4, case["table"]["nch"])), 10.0)
 
     def call(kind_, req, t_, order, Lab_, rtol):
-        r = sut(alg.mpe, sel_freq=list(req), order=order, rtol=rtol)
+        if case.get("default_rtol"):
+            # an earlier call with another tolerance must not change what the documented default (5e-2) means
+            sut(alg.mpe, sel_freq=list(req), order=order, rtol=case["first_rtol"])
+            r = sut(alg.mpe, sel_freq=list(req), order=order)
+        else:
+            r = sut(alg.mpe, sel_freq=list(req), order=order, rtol=rtol)
         if raised(r):
             return r
         res = alg.result
@@ -393,6 +398,10 @@ def wiring_case(draw):
     c = draw(req_case(kind == "ssi", mode))
     c["kind"] = kind
     c["rtol"] = draw(st.sampled_from([0.05, 0.01, 0.002, 0.1, 0.03, 0.2]))
+    if draw(st.integers(0, 3)) == 0:
+        c["default_rtol"] = True
+        c["first_rtol"] = draw(st.sampled_from([0.2, 0.002, 0.1, 0.01]))
+        c["rtol"] = 0.05  # the documented default of SSI*.mpe and pLSCF.mpe
     if mode != "find_min":
         c["table"]["pert"] = draw(st.sampled_from([0.0, 0.1, 0.3, 0.6, 1.5])) * c["rtol"]
     return c
